@@ -491,7 +491,8 @@ def gen_list_lengths(rng):
   units = rng.randint(1, 2)
   w = [[gen_value(rng, rng.choice(["dyadic", "int"])) for _ in range(units)] for _ in range(k)]
   return dict(list_lengths=kind, lengths=lengths, mono=mono, conv=conv, omin=omin, omax=omax, iters=rng.choice([0, 1, 8]), w=w,
-              as_tuple=rng.random() < 0.3)
+              as_tuple=rng.random() < 0.3, form=rng.choice(["list", "list", "tensor", "ndarray"]),
+              wdtype=rng.choice(["float32", "float64"]))
 
 
 def check_list_lengths(ctx, case):
@@ -509,7 +510,10 @@ def check_list_lengths(ctx, case):
   ls = [float(l) for l in lengths]
   try:
     cons = pl.PWLCalibrationConstraints(
-        monotonicity=cfg["mono"], convexity=cfg["conv"], lengths=tuple(ls) if case.get("as_tuple") else ls,
+        monotonicity=cfg["mono"], convexity=cfg["conv"],
+        lengths=(tf.constant(ls, dtype=tf.float32) if case.get("form") == "tensor" else
+                 np.array(ls, dtype=np.float64) if case.get("form") == "ndarray" else
+                 tuple(ls) if case.get("as_tuple") else ls),
         output_min=None if cfg["omin"] is None else float(cfg["omin"]),
         output_max=None if cfg["omax"] is None else float(cfg["omax"]),
         output_min_constraints=minc, output_max_constraints=maxc, num_projection_iterations=int(case["iters"]))
@@ -522,11 +526,13 @@ def check_list_lengths(ctx, case):
     ctx.fail("raises", key, case, classify_exc(e), "constructor raised something else than ValueError")
     return
   ctx.count("list_lengths:%s:accepted" % kind)
-  # float32 weights: Python-list lengths become float32 tensors inside the projection (with float64 weights the
-  # real code raises TypeError `x and y must have the same dtype` — reported to the lead, not this stream's subject)
-  wf = np.array([[float(Fraction(v)) for v in row] for row in case["w"]], dtype=np.float32)
+  # weights of either dtype: the projection casts the lengths to the weights' dtype (fixes e9fee6c/efc1442; before,
+  # list lengths against float64 weights raised TypeError), lengths as list / tuple / constant tensor / ndarray
+  wdt = np.float64 if case.get("wdtype") == "float64" else np.float32
+  wf = np.array([[float(Fraction(v)) for v in row] for row in case["w"]], dtype=wdt)
+  ctx.count("list_lengths:form:%s:%s" % (case.get("form", "list"), case.get("wdtype", "float32")))
   try:
-    out = cons(tf.constant(wf, dtype=tf.float32)).numpy().astype(np.float64)
+    out = cons(tf.constant(wf, dtype=tf.as_dtype(wdt))).numpy().astype(np.float64)
   except Exception as e:  # pylint: disable=broad-except
     ctx.fail("raises", key, case, classify_exc(e), "accepted lengths, the constraint raises when applied")
     return
